@@ -1,4 +1,5 @@
-//! C12 driver: track tree main <- A <- B with sound SA on A (left channel) and SB on B (right channel).
+//! C12 driver: track chain main <- A <- B [<- C] with sound SA on A (left channel), SB on B (right channel) and,
+//! at depth 3, SC on C (left channel again, 1024 times quieter, so that it sits in the fractional part of SA's code).
 //!
 //! Scenario: {"persistA": bool, "persistB": bool, "src": .., "steps": [
 //!   {"act":"Cmd","t":"A"|"B","c":"pause|resume|resume_at","d":D,"wk":..,"wt":W} | {"act":"Drop","t":..}
@@ -47,6 +48,49 @@ fn decode(samples: &[f32]) -> i64 {
 	}
 }
 
+/// the left channel carries SA (integer part of the code) and SC (fractional part, in 1/1024): (first SA, first SC)
+fn decode_left(samples: &[f32], depth: u64) -> (i64, i64) {
+	if samples.iter().all(|s| *s == 0.0) {
+		return (-1, -1);
+	}
+	let vals: Vec<f64> = samples
+		.iter()
+		.map(|s| *s as f64 / (AMP as f64 * std::f64::consts::SQRT_2) * 256.0)
+		.collect();
+	let ints: Vec<f64> = vals.iter().map(|v| (v + 1e-4).floor()).collect();
+	let fracs: Vec<f64> = vals.iter().zip(&ints).map(|(v, a)| (v - a) * 1024.0).collect();
+	// SC: silent, or four consecutive codes, or undecodable
+	let c = if fracs.iter().all(|f| f.abs() < 0.05) {
+		-1
+	} else {
+		let k = fracs[0].round();
+		if k >= 1.0 && fracs.iter().enumerate().all(|(j, f)| (f - (k + j as f64)).abs() < 0.05) {
+			k as i64 - 1
+		} else {
+			-2
+		}
+	};
+	// SA: silent (integer part 0), four consecutive codes, or undecodable; an undecodable fraction below 1 may be a faded SA
+	let a = if ints.iter().all(|x| *x == 0.0) {
+		// below one code unit: without an SC in the scene this is a deeply faded SA; with one it is a faded SC
+		// or a deeply faded SA - the driver cannot tell and makes no claim (-4) about either
+		if c == -2 { if depth == 2 { -2 } else { -4 } } else { -1 }
+	} else {
+		let k = ints[0];
+		if k >= 1.0 && ints.iter().enumerate().all(|(j, x)| *x == k + j as f64) && c != -2 {
+			k as i64 - 1
+		} else if k >= 1.0 && ints.iter().enumerate().all(|(j, x)| *x == k + j as f64) {
+			// the integer part is a clean code; the fraction is a faded SC
+			k as i64 - 1
+		} else {
+			-2
+		}
+	};
+	// when SA itself is faded its residue cannot be told apart from SC: no claim about SC (reported as not heard;
+	// the monitor then forgets SC's expected frame unless SC is known to be frozen)
+	(a, if a == -4 { -4 } else if a == -2 { -1 } else { c })
+}
+
 fn tstate(h: &Option<TrackHandle>) -> &'static str {
 	match h {
 		None => "gone",
@@ -72,7 +116,9 @@ fn tween(d: u64) -> Tween {
 fn run_scenario(sc: &Value, t: &mut Tracer) {
 	let pa = sc["persistA"].as_bool().unwrap_or(false);
 	let pb = sc["persistB"].as_bool().unwrap_or(false);
-	t.reset(json!({"persist": {"A": pa, "B": pb}, "n": NF, "src": sc["src"]}));
+	let pc = sc["persistC"].as_bool().unwrap_or(false);
+	let depth = sc["depth"].as_u64().unwrap_or(2);
+	t.reset(json!({"persist": {"A": pa, "B": pb, "C": pc}, "n": NF, "depth": depth, "src": sc["src"]}));
 	let mut sim = Sim::basic();
 	let mut clock = sim.manager.add_clock(ClockSpeed::TicksPerSecond(2.0)).unwrap();
 	clock.start();
@@ -94,7 +140,26 @@ fn run_scenario(sc: &Value, t: &mut Tracer) {
 	};
 	let sa: StaticSoundHandle = a.play(mk(Panning::LEFT)).unwrap();
 	let sb: StaticSoundHandle = b.play(mk(Panning::RIGHT)).unwrap();
-	let mut sounds = [sa, sb];
+	let mut hc = None;
+	let mut sounds = vec![sa, sb];
+	if depth == 3 {
+		let mut c = b
+			.add_sub_track(TrackBuilder::new().persist_until_sounds_finish(pc))
+			.unwrap();
+		// 1024 times quieter than SA: -60.206 dB is exactly 2^-10 only approximately, so scale the frames instead
+		let quiet: Arc<[Frame]> = (0..250)
+			.map(|i| {
+				let x = (i + 1) as f32 / 256.0 * AMP / 1024.0;
+				Frame::new(x, x)
+			})
+			.collect::<Vec<_>>()
+			.into();
+		let sc_h = c
+			.play(StaticSoundData { sample_rate: RATE, frames: quiet, settings: StaticSoundSettings::new().panning(Panning::LEFT), slice: None })
+			.unwrap();
+		sounds.push(sc_h);
+		hc = Some(c);
+	}
 	let mut ha = Some(a);
 	let mut hb = Some(b);
 	// no warm-up callbacks here: the first callbacks are part of the session (tracks not yet picked up);
@@ -107,7 +172,7 @@ fn run_scenario(sc: &Value, t: &mut Tracer) {
 				let d = step["d"].as_u64().unwrap_or(0);
 				let wk = step["wk"].as_str().unwrap_or("none");
 				let wt = step["wt"].as_u64().unwrap_or(0);
-				let h = if tn == "A" { &mut ha } else { &mut hb };
+				let h = match tn { "A" => &mut ha, "B" => &mut hb, _ => &mut hc };
 				let Some(h) = h.as_mut() else { continue };
 				let r = guarded(|| match c {
 					"pause" => h.pause(tween(d)),
@@ -133,7 +198,7 @@ fn run_scenario(sc: &Value, t: &mut Tracer) {
 			}
 			"Drop" => {
 				let tn = step["t"].as_str().unwrap();
-				let h = if tn == "A" { ha.take() } else { hb.take() };
+				let h = match tn { "A" => ha.take(), "B" => hb.take(), _ => hc.take() };
 				if h.is_some() {
 					drop(h);
 					t.ev(json!({"a": "drop", "t": tn}));
@@ -141,24 +206,32 @@ fn run_scenario(sc: &Value, t: &mut Tracer) {
 			}
 			"Stop" => {
 				let sn = step["s"].as_str().unwrap();
-				sounds[if sn == "SA" { 0 } else { 1 }].stop(tween(0));
+				let ix = match sn { "SA" => 0, "SB" => 1, _ => 2 };
+				if ix >= sounds.len() {
+					continue;
+				}
+				sounds[ix].stop(tween(0));
 				t.ev(json!({"a": "stop", "s": sn}));
 			}
 			"Callback" => {
 				let res = sim.callback(NF);
 				let left: Vec<f32> = res.out.chunks(2).map(|c| c[0]).collect();
 				let right: Vec<f32> = res.out.chunks(2).map(|c| c[1]).collect();
-				let (fa, fb) = (decode(&left), decode(&right));
+				let (fa, fc) = decode_left(&left, depth);
+				let fc = if depth == 3 { fc } else { -1 };
+				let fb = decode(&right);
 				let ntop = sim.manager.num_sub_tracks();
 				let n_a: i64 = ha.as_ref().map(|h| h.num_sub_tracks() as i64).unwrap_or(-1);
+				let n_b: i64 = hb.as_ref().map(|h| h.num_sub_tracks() as i64).unwrap_or(-1);
+				let sstate = |i: usize| if i < sounds.len() { state_name(sounds[i].state()) } else { "Playing" };
+				let spos = |i: usize| if i < sounds.len() { (sounds[i].position() * RATE as f64).round() as i64 } else { 0 };
 				t.ev(json!({"a": "cb",
-					"st": {"A": tstate(&ha), "B": tstate(&hb)},
-					"first": {"SA": fa, "SB": fb},
-					"zero": {"SA": fa == -1, "SB": fb == -1},
-					"sst": {"SA": state_name(sounds[0].state()), "SB": state_name(sounds[1].state())},
-					"pos": {"SA": (sounds[0].position() * RATE as f64).round() as i64,
-						"SB": (sounds[1].position() * RATE as f64).round() as i64},
-					"ntop": ntop, "nA": n_a, "panicked": res.panicked.is_some(), "m": res.monitor(2)}));
+					"st": {"A": tstate(&ha), "B": tstate(&hb), "C": tstate(&hc)},
+					"first": {"SA": fa, "SB": fb, "SC": fc},
+					"zero": {"SA": fa == -1, "SB": fb == -1, "SC": fc == -1 || fc == -4},
+					"sst": {"SA": sstate(0), "SB": sstate(1), "SC": sstate(2)},
+					"pos": {"SA": spos(0), "SB": spos(1), "SC": spos(2)},
+					"ntop": ntop, "nA": n_a, "nB": n_b, "panicked": res.panicked.is_some(), "m": res.monitor(2)}));
 				if res.panicked.is_some() {
 					break;
 				}
